@@ -280,40 +280,8 @@ func checkC06(c *Ctx) {
 	}
 
 	// ---- R5: a failed acquisition is reported, and a failed initial acquisition starts the loop
+	acquisitionResultRule(c, "R5")
 	if acq := m.acquisitionFn(); acq != nil {
-		var check func(f *ssa.Function, depth int)
-		seenF := map[*ssa.Function]bool{}
-		check = func(f *ssa.Function, depth int) {
-			if seenF[f] || depth > 3 {
-				return
-			}
-			seenF[f] = true
-			for _, b := range liveBlocks(f) {
-				ret, ok := b.Instrs[len(b.Instrs)-1].(*ssa.Return)
-				if !ok || b == f.Recover || len(ret.Results) != 1 || !isErrorType(ret.Results[0].Type()) {
-					continue
-				}
-				v := returnValue(ret, 0)
-				key := fmt.Sprintf("acquisition result #%d of %s", exitOrdinal(f, b), shortFn(f))
-				if k, isC := v.(*ssa.Const); isC && k.Value == nil {
-					// success must mean: the claim-set unit accepted the claim
-					g := m.Guards(b)
-					claimed := hasLit(g, true, func(s *Sym) bool {
-						call, ok := s.V.(*ssa.Call)
-						return ok && call.Call.StaticCallee() != nil && containsFn(m.ClaimSet, call.Call.StaticCallee())
-					})
-					c.check(claimed, "R5", key, ret, "`return nil` only after the claim-set unit returned true: %v (a nil result without a claim makes the caller believe it leads or, at start-up, never starts the follower loop)", claimed)
-					continue
-				}
-				// a result passed through from a callee: check the callee
-				if call, ok := v.(*ssa.Call); ok {
-					if g := call.Call.StaticCallee(); g != nil && m.isLib(g) {
-						check(g, depth+1)
-					}
-				}
-			}
-		}
-		check(acq, 0)
 		// the start unit's goroutine: on error, the follower transition
 		if st := m.method("Start"); st != nil {
 			found := false
@@ -399,4 +367,50 @@ func (m *Model) reachesAcquire(f *ssa.Function) bool {
 		}
 	}
 	return false
+}
+
+// acquisitionResultRule: every `return nil` of the acquisition function (and of the functions
+// whose result it passes on) is guarded by the claim-set unit having returned true.
+func acquisitionResultRule(c *Ctx, rule string) {
+	m := c.M
+	acq := m.acquisitionFn()
+	if acq == nil {
+		c.undecided(rule, "acquisition function", nil, "not found")
+		return
+	}
+	var check func(f *ssa.Function, depth int)
+	seenF := map[*ssa.Function]bool{}
+	check = func(f *ssa.Function, depth int) {
+		if seenF[f] || depth > 3 {
+			return
+		}
+		seenF[f] = true
+		for _, b := range liveBlocks(f) {
+			ret, ok := b.Instrs[len(b.Instrs)-1].(*ssa.Return)
+			if !ok || b == f.Recover || len(ret.Results) != 1 || !isErrorType(ret.Results[0].Type()) {
+				continue
+			}
+			v := returnValue(ret, 0)
+			key := fmt.Sprintf("acquisition result #%d of %s", exitOrdinal(f, b), shortFn(f))
+			if k, isC := v.(*ssa.Const); isC && k.Value == nil {
+				g := m.Guards(b)
+				claimed := hasLit(g, true, func(s *Sym) bool {
+					call, ok := s.V.(*ssa.Call)
+					return ok && call.Call.StaticCallee() != nil && containsFn(m.ClaimSet, call.Call.StaticCallee())
+				})
+				c.check(claimed, rule, key, ret, "`return nil` only after the claim-set unit returned true: %v (a nil result without a claim makes the caller believe it leads or, at start-up, never starts the follower loop)", claimed)
+				continue
+			}
+			if call, ok := v.(*ssa.Call); ok {
+				if g := call.Call.StaticCallee(); g != nil && m.isLib(g) {
+					check(g, depth+1)
+				}
+			}
+			// a result held in a variable that may be nil
+			if ph, ok := v.(*ssa.Phi); ok {
+				_ = ph
+			}
+		}
+	}
+	check(acq, 0)
 }
